@@ -353,7 +353,12 @@ def run_scripted(rng, drv, profile, tid):
             cl.np = n
             m = msg0(type="claim", nameplate=n)
         elif op == "open":
-            i = cl.mbox or (shared["mbox"] if cl.role in ("standalone", "intruder") else None)
+            i = cl.mbox
+            if i is None and cl.role == "intruder":
+                # an eavesdropper knows the mailbox the two sides were told
+                i = shared.get("mbox_np") or shared["mbox"]
+            if i is None and cl.role == "standalone":
+                i = shared["mbox"]
             if i is None:
                 return None
             cl.mbox = i
